@@ -352,7 +352,7 @@ func (p *Parser) parseHexString() (core.Object, error) {
 		if p.pos >= len(p.data) || p.data[p.pos] == '>' {
 			// Odd number of digits - assume trailing 0
 			result.WriteByte(hexValue(c) << 4)
-			break
+			continue // the loop head consumes the closing '>'
 		}
 
 		c2 := p.data[p.pos]
@@ -361,7 +361,7 @@ func (p *Parser) parseHexString() (core.Object, error) {
 			p.skipWhitespace()
 			if p.pos >= len(p.data) || p.data[p.pos] == '>' {
 				result.WriteByte(hexValue(c) << 4)
-				break
+				continue // the loop head consumes the closing '>'
 			}
 			c2 = p.data[p.pos]
 		}
